@@ -251,7 +251,7 @@ def check_csv(case, ctx):
             if ref is None:
                 if not math.isnan(g):
                     ctx.fail("C06/undefined/%s" % case["metric"], case, "csv reports %r for table %r" % (g, tab))
-            elif not cmpx.close(g, cmpx.fmt_sig(ref, 6), 2e-6):
+            elif not cmpx.printed_ok(g, ref, 6, rel=2e-6):
                 ctx.fail("C06/csv/%s" % case["metric"], case, "event %d input %d: csv %r, formula on table %r gives %r" % (k, i, g, tab, ref))
 
 
